@@ -129,7 +129,34 @@ func runC13(c *Ctx) {
 				if !ok || !isNil {
 					continue
 				}
-				leaves := liveLeaves(v)
+				// the leaves may be results of a helper that wraps createPermission (find or
+				// insert the permission, retry on a stale nonce): look at what that helper returns
+				var leaves []ssa.Value
+				for _, l0 := range liveLeaves(v) {
+					hc, _ := callOf(l0)
+					if hc != nil && hc.Call.StaticCallee() != createPerm && hc.Call.StaticCallee() != nil && w.IsMod[hc.Call.StaticCallee()] && len(hc.Call.StaticCallee().Blocks) > 0 {
+						h := hc.Call.StaticCallee()
+						expanded := false
+						for _, r := range returnsOf(h) {
+							if len(r.Results) == 0 {
+								continue
+							}
+							for _, l1 := range liveLeaves(w.resolveLoad(r.Results[len(r.Results)-1])) {
+								if ic, _ := callOf(l1); ic != nil && ic.Call.StaticCallee() == createPerm {
+									leaves = append(leaves, w.translate(ic, h, hc))
+									expanded = true
+								} else {
+									leaves = append(leaves, l1)
+									expanded = true
+								}
+							}
+						}
+						if expanded {
+							continue
+						}
+					}
+					leaves = append(leaves, l0)
+				}
 				all := len(leaves) > 0
 				for _, l := range leaves {
 					lc, _ := callOf(l)
@@ -374,9 +401,9 @@ func runC13(c *Ctx) {
 		hs := w.Func("turn", "Client", "handleSTUNMessage")
 		hc := w.Func("turn", "Client", "handleChannelData")
 		findAddr := w.Func("client", "UDPConn", "FindAddrByChannelNumber")
-		for _, cs := range w.callsTo(hi) {
-			fn := cs.Parent()
-			data, from := cs.Common().Args[1], cs.Common().Args[2]
+		for _, lc := range w.liftCalls(hi, func(f *ssa.Function) bool { return f == hs || f == hc }, 3) {
+			cs, fn := lc.at, lc.fn
+			data, from := lc.args[1], lc.args[2]
 			switch fn {
 			case hs:
 				c.Anchor("C13.5", "Data indication")
@@ -418,6 +445,12 @@ func runC13(c *Ctx) {
 				c.Anchor("C13.5", "ChannelData")
 				db, df, ok1 := fieldLoad(data)
 				okData := ok1 && df.Name() == "Data"
+				// the address may come through a thin lookup helper
+				if oc, _ := callOf(w.resolveLoad(from)); oc == nil || oc.Call.StaticCallee() != findAddr {
+					if o, _, _ := w.originAt(from, cs); o != nil {
+						from = o
+					}
+				}
 				fc, fi := callOf(from)
 				okFrom := false
 				if fc != nil && fc.Call.StaticCallee() == findAddr && fi == 0 && okData {
